@@ -156,3 +156,23 @@ Lemma reference_fields_agree_lemma :
   /\ str_list_eqb object_kinds model_kinds = true /\ str_list_eqb mark_arms model_kinds = true
   /\ mark_has_wildcard_arm = false.
 Proof. vm_compute. repeat split; reflexivity. Qed.
+
+(* a collection is invisible to the program: the part of the heap it can reach is the same set of
+   indices holding the same objects, before and after *)
+Lemma vm_collect_invisible_lemma : forall s h s' h',
+  vm_collect s h = Some (s', h') ->
+  (forall i, program_reachable s' h' i <-> program_reachable s h i)
+  /\ (forall i, program_reachable s h i -> get h' i = get h i).
+Proof.
+  intros s h s' h' Hc. unfold vm_collect in Hc.
+  destruct (collect h (collect_roots s)) as [h2|] eqn:Hc2; [|discriminate].
+  injection Hc as <- <-.
+  destruct (reach_after_collect edges_code h (collect_roots s) h2 Hc2) as [Hiff Hsame].
+  assert (Hcs : forall hh i, reachable_spec hh (collect_roots s) i <-> reachable_code hh (collect_roots s) i)
+    by (intros hh i; symmetry; apply reach_code_iff_spec).
+  split.
+  - intro i. rewrite !program_reachable_iff. unfold collect_roots at 1. cbn [v_registers v_frames v_globals
+      v_globals_by_index v_open_upvalues v_current_upvalues]. fold (collect_roots s).
+    rewrite !Hcs. apply Hiff.
+  - intros i Hp. apply Hsame. apply Hcs. apply program_reachable_iff. exact Hp.
+Qed.
